@@ -1519,7 +1519,17 @@ def rule_ID(run: Run) -> RuleResult:
                 s_ = sites.setdefault((e.file, e.line, "set_dispatch"), [True, ""])
                 s_[0] = s_[0] and len(e.args) == 1 and e.args[0].key() == dsp
                 s_[1] = ", ".join(a.key()[:40] for a in e.args)
-    n = len(sites)
+    # the member kinds are told apart by what is made a dataset (the annotation's stub, the function itself, the stub around a plain
+    # value) or adopted — two kinds may well share one call site
+    kinds_ = set()
+    for p in ips_all:
+        for e in p.events:
+            if e.kind == "call" and e.text in ("labrea.dataset.dataset", "labrea.dataset.abstractdataset"):
+                first_ = next((a for a in e.args if not (isinstance(a, Sym) and a.head.startswith("kw:"))), None)
+                kinds_.add((e.text.rsplit(".", 1)[-1], first_.key()[:80] if first_ is not None else ""))
+            elif e.kind == "call" and e.text == "set_dispatch":
+                kinds_.add(("set_dispatch", ""))
+    n = max(len(sites), len(kinds_))
     for (fl_, ln_, nm), (ok, how) in sorted(sites.items()):
         if nm == "set_dispatch":
             res.add("labrea.interface.Interface.__init__:existing Dataset member gets set_dispatch(dispatch)", ok, fl_, ln_, f"set_dispatch({how})", nec)
@@ -1624,7 +1634,7 @@ def rule_ID(run: Run) -> RuleResult:
         def stored(p):
             st = [e for e in p.events if e.kind == "store" and len(e.args) == 2 and e.args[0].key() == "self" and e.args[1].key() == Const("dispatch").key()]
             return st[-1].target if st else None
-        str_dispatch([p for p in analyse_function(Ctx(repo), df.module, dinit, cls=df) if Frame.atoms(p.conds).get("cmp:Is(dispatch,Const(None))") is False],
+        str_dispatch([p for p in analyse_function(Ctx(repo), df.module, dinit, cls=df) if Frame.atoms(p.conds).get("cmp:Is(dispatch,Const(None))") is not True],
                      stored, "labrea.dataset.DatasetFactory.__init__", df.module.relpath, dinit.lineno)
     return res
 
